@@ -17,6 +17,7 @@ import (
 	"fmt"
 	"os"
 	"path/filepath"
+	"time"
 
 	"github.com/polynetwork/poly/common"
 	"github.com/polynetwork/poly/merkle"
@@ -149,6 +150,24 @@ func (c *c06Run) violate(kind string, n, m, T int, detail obj) {
 	vio.Emit(obj{"violation": kind, "n": n, "m": m, "T": T, "detail": detail})
 }
 
+// guarded runs a call into poly with panic capture and a watchdog: a proof builder that never returns does not
+// serve the proof.  The limit is far above anything a loaded machine needs for a call that takes microseconds.
+func (c *c06Run) guarded(what string, n, m, T int, f func()) (panicked string) {
+	done := make(chan string, 1)
+	go func() { done <- vio.Safe(f) }()
+	select {
+	case p := <-done:
+		return p
+	case <-time.After(15 * time.Second):
+		c.reportCap = 1
+		c.violate(what+"-never-returns", n, m, T, obj{"waited_s": 15})
+		vio.Emit(obj{"summary": true, "rows": 0, "evaluations": c.evals, "distinct": len(c.distinct), "drift": c.drift, "aborted": "hang"})
+		vio.Flush()
+		os.Exit(0)
+	}
+	return ""
+}
+
 func (c *c06Run) leafPathBytes(pr *proofRow) []byte {
 	b := varBytes(c.data[pr.m])
 	for _, it := range pr.path {
@@ -174,7 +193,7 @@ func (c *c06Run) queries(tree *merkle.CompactMerkleTree, T int) {
 			c.evals++
 			var p []common.Uint256
 			var err error
-			if pn := vio.Safe(func() { p, err = tree.InclusionProof(m, n) }); pn != "" || err != nil {
+			if pn := c.guarded("inclusion-proof", pr.n, pr.m, T, func() { p, err = tree.InclusionProof(m, n) }); pn != "" || err != nil {
 				c.violate("inclusion-proof-unavailable", pr.n, pr.m, T, obj{"panic": pn, "err": fmt.Sprint(err)})
 				continue
 			}
@@ -188,7 +207,7 @@ func (c *c06Run) queries(tree *merkle.CompactMerkleTree, T int) {
 			}
 			c.distinct[fmt.Sprintf("incl/%d/%d", pr.n, pr.m)] = true
 			var lp []byte
-			if pn := vio.Safe(func() { lp, err = tree.MerkleInclusionLeafPath(c.data[pr.m], m, n) }); pn != "" || err != nil {
+			if pn := c.guarded("leaf-path", pr.n, pr.m, T, func() { lp, err = tree.MerkleInclusionLeafPath(c.data[pr.m], m, n) }); pn != "" || err != nil {
 				c.violate("leaf-path-unavailable", pr.n, pr.m, T, obj{"panic": pn, "err": fmt.Sprint(err)})
 				continue
 			}
@@ -204,7 +223,7 @@ func (c *c06Run) queries(tree *merkle.CompactMerkleTree, T int) {
 		if pr.hasC {
 			c.evals++
 			var p []common.Uint256
-			if pn := vio.Safe(func() { p = tree.ConsistencyProof(m, n) }); pn != "" {
+			if pn := c.guarded("consistency-proof", pr.n, pr.m, T, func() { p = tree.ConsistencyProof(m, n) }); pn != "" {
 				c.violate("consistency-proof-unavailable", pr.n, pr.m, T, obj{"panic": pn})
 				continue
 			}
